@@ -46,7 +46,8 @@ class SpecRT:
                      'dhas', 'dval', 'distinct_refs', 'is_digit_string', 'int_accepts', 'norm_any', 'dict_is',
                      'old_dict', 'dict_same', 'any_mem', 'any_of', 'any_is_int', 'any_int_value', 'str_is_int_of',
                      'any_is_none', 'any_eq', 'any_same', 'returned_class', 'is_the_election', 'dict_int_values_between', 'int_value_of', 'mem_opt', 'length_opt', 'slack0',
-                     'dref', 'dict_has_ref', 'dict_copy_of', 'any_is_str'}
+                     'dref', 'dict_has_ref', 'dict_copy_of', 'any_is_str',
+                     'str_has', 'visited', 'snap_vote'}
 
     def init(self):
         self.ctx = None
